@@ -70,7 +70,7 @@ public:
 		sbuf = guard::alloc(sizeof(struct isal_zstream), guard::END, "isal_zstream", 64, 0);
 		s = (struct isal_zstream *) sbuf.p;
 		if (o.do_prefill) memset(sbuf.p, o.prefill, sizeof(struct isal_zstream));
-		if (o.level > 0 && !o.lbuf_null) {
+		if ((o.level > 0 || o.lbuf_size > 0) && !o.lbuf_null) {
 			// 16-byte aligned like every malloc'ed buffer real callers pass: the library overlays a struct with 32/64-bit members
 			// (and resets the hash table with wmemset), so a byte-misaligned level_buf is outside what callers do
 			lbuf = guard::alloc(o.lbuf_size, guard::END, "level_buf", 16, 0);
